@@ -54,6 +54,50 @@ Theorem C10_expired_like_absent_trace : forall T s t k h ops,
   Inv s -> hdr_of s t k = Some h -> hdead T h -> Forall (op_ok T 0) ops -> run s ops = run (erase s t k) ops.
 Proof. exact expired_like_absent_trace. Qed.
 Print Assumptions C10_expired_like_absent_trace.
+(* multi-key / multi-member reads: EXISTS k1 k2 .. (read_exists), MGET (read_mget), HGET / HMGET per field, SISMEMBER, ZSCORE
+   (read_elem).  An expired key contributes exactly like an absent one, at every position of the argument list. *)
+Theorem C10_exists_skips_expired : forall s now ks1 k ks2 h,
+  hdr_of s TK k = Some h -> is_expired Compact h now = true ->
+  read_exists Compact s now (ks1 ++ k :: ks2) = read_exists Compact s now (ks1 ++ ks2).
+Proof. intros s now ks1 k ks2 h H E. exact (read_exists_skip Compact s now ks1 k ks2 (read_value_dead s now k h H E)). Qed.
+Print Assumptions C10_exists_skips_expired.
+Theorem C10_exists_counts_live : forall s now ks1 k ks2 h,
+  hdr_of s TK k = Some h -> is_expired Compact h now = false ->
+  read_exists Compact s now (ks1 ++ k :: ks2) = 1 + read_exists Compact s now (ks1 ++ ks2).
+Proof.
+  intros s now ks1 k ks2 h H E. destruct (read_value_live s now k h H E) as (v & _ & V).
+  exact (read_exists_count Compact s now ks1 k ks2 v V).
+Qed.
+Print Assumptions C10_exists_counts_live.
+Theorem C10_mget_expired_is_nil : forall s now ks i k h,
+  nth_error ks i = Some k -> hdr_of s TK k = Some h -> is_expired Compact h now = true ->
+  nth_error (read_mget Compact s now ks) i = Some None.
+Proof. intros s now ks i k h N H E. rewrite (read_mget_nth Compact s now ks i k N). now rewrite (read_value_dead s now k h H E). Qed.
+Print Assumptions C10_mget_expired_is_nil.
+Theorem C10_mget_live_is_stored_value : forall s now ks i k h,
+  nth_error ks i = Some k -> hdr_of s TK k = Some h -> is_expired Compact h now = false ->
+  exists v, kv_get s k = Some (h, v) /\ nth_error (read_mget Compact s now ks) i = Some (Some v).
+Proof.
+  intros s now ks i k h N H E. destruct (read_value_live s now k h H E) as (v & G & V). exists v. split; [exact G|].
+  rewrite (read_mget_nth Compact s now ks i k N). now rewrite V.
+Qed.
+Print Assumptions C10_mget_live_is_stored_value.
+Theorem C10_member_read_expired_is_absent : forall s now t k m h,
+  t <> TK -> hdr_of s t k = Some h -> is_expired Compact h now = true -> read_elem Compact s now t k m = None.
+Proof. exact read_elem_dead. Qed.
+Print Assumptions C10_member_read_expired_is_absent.
+Theorem C10_member_read_live : forall s now t k m h,
+  t <> TK -> hdr_of s t k = Some h -> is_expired Compact h now = false ->
+  read_elem Compact s now t k m = el_get s t k (h_ver h) (SB m).
+Proof. exact read_elem_live. Qed.
+Print Assumptions C10_member_read_live.
+Theorem C10_expired_like_absent_multiread : forall s now t k h,
+  Inv s -> now <> 0 -> hdr_of s t k = Some h -> is_expired Compact h now = true ->
+  (forall ks, read_exists Compact s now ks = read_exists Compact (erase s t k) now ks) /\
+  (forall ks, read_mget Compact s now ks = read_mget Compact (erase s t k) now ks) /\
+  (forall t' k' m, read_elem Compact s now t' k' m = read_elem Compact (erase s t k) now t' k' m).
+Proof. exact expired_like_absent_multiread. Qed.
+Print Assumptions C10_expired_like_absent_multiread.
 (* the bytes stored under an expired header have no influence on any later reply or observation *)
 Theorem C10_dead_value_irrelevant : forall T s k h v1 v2 ops,
   Inv s -> hdead T h -> Forall (op_ok T 0) ops -> run (kv_put s k h v1) ops = run (kv_put s k h v2) ops.
@@ -211,3 +255,17 @@ Example C10_ex_local :
   tidx s = [((110, TK, [1%N]), tt)] /\
   o_exists (read Local (local_tick s 109) 0 TK [1%N]) = true /\ o_exists (read Local (local_tick s 110) 0 TK [1%N]) = false.
 Proof. vm_compute. auto. Qed.
+(* EXISTS dead live never = 1, MGET = [nil; v; nil] at the expiry second of the first key; 1 ns earlier 2 and [v; v; nil];
+   HGET / SISMEMBER of a member of an expired hash: nothing *)
+Example C10_ex_multiread :
+  let s1 := fst (step Compact empty_store (100 * ns_per_sec) (CSetEx [1%N] 10 [7%N])) in
+  let s2 := fst (step Compact s1 (100 * ns_per_sec) (CSet [2%N] [8%N])) in
+  let s3 := fst (step Compact s2 (100 * ns_per_sec) (CHSet [1%N] [5%N] [6%N] false)) in
+  let s := fst (step Compact s3 (100 * ns_per_sec + 1) (CExpire TH [1%N] 10)) in
+  read_exists Compact s (110 * ns_per_sec) [[1%N]; [2%N]; [3%N]] = 1 /\
+  read_exists Compact s (110 * ns_per_sec - 1) [[1%N]; [2%N]; [3%N]] = 2 /\
+  read_mget Compact s (110 * ns_per_sec) [[1%N]; [2%N]; [3%N]] = [None; Some [8%N]; None] /\
+  read_mget Compact s (110 * ns_per_sec - 1) [[1%N]; [2%N]; [3%N]] = [Some [7%N]; Some [8%N]; None] /\
+  read_elem Compact s (110 * ns_per_sec - 1) TH [1%N] [5%N] = Some (EB [6%N]) /\
+  read_elem Compact s (110 * ns_per_sec) TH [1%N] [5%N] = None.
+Proof. vm_compute. repeat split; reflexivity. Qed.
